@@ -17,7 +17,7 @@ from .smt import (
 )
 from .smt_exec import Fork, Raised, State, Verifier, has_effect_call
 
-SPEC_FUNCS = {"old", "forall", "implies", "elems", "has", "get", "isinst", "fresh_obj", "ite", "trigger",
+SPEC_FUNCS = {"ncalls", "callarg", "old", "forall", "implies", "elems", "has", "get", "isinst", "fresh_obj", "ite", "trigger",
               "strlen", "char_at", "typeis", "allocated", "iff", "exists_in", "substr", "int_of", "same"}
 
 
@@ -52,11 +52,31 @@ class FuncVerifier(Verifier):
                 return self.call_named(st, p[1], [p[2]] + args, kwargs, node)
             if isinstance(p, type):
                 return self.construct(st, p, args, kwargs, node)
+            import re as _re
+            if callable(p) and isinstance(getattr(p, "__self__", None), _re.Pattern):
+                return self.call_named(st, "re.Pattern." + p.__name__, [mk_py(p.__self__)] + args, kwargs, node)
+            if callable(p) and isinstance(getattr(p, "__self__", None), dict) and p.__name__ == "get":
+                return self.pydict_get(st, p.__self__, args, node)
+            if p is _re.match:
+                return self.call_named(st, "re.match", args, kwargs, node)
             if callable(p) and hasattr(p, "__qualname__"):
                 return self.call_named(st, p.__qualname__, args, kwargs, node)
         if fv.kind == "ref" and fv.ty and fv.ty[0] == "callable":
             return self.call_named(st, fv.ty[1], args, kwargs, node)
         raise EngineError(f"call of {fv} at line {node.lineno}")
+
+    def pydict_get(self, st, d: dict, args, node) -> SV:
+        key = args[0]
+        default = args[1] if len(args) > 1 else mk_none()
+        if all(self._simple_py(v) for v in d.values()):
+            res = default
+            for k in reversed(list(d)):
+                res = self.merge(st, self.equal(st, key, self.from_py(k), False), self.from_py(d[k]), res)
+            return res
+        for k in d:
+            if self._decide_key(st, ("pyget", id(node), k), self.equal(st, key, self.from_py(k), False)):
+                return self.from_py(d[k])
+        return default
 
     # ---- builtins
     def builtin_call(self, name: str, node: ast.Call, st: State) -> Optional[SV]:
@@ -190,7 +210,17 @@ class FuncVerifier(Verifier):
                 if len(args) > 1:
                     p = ival(args[1].v)
                     tail = z3.Extract(s, p, z3.Length(s) - p)
-                    return mk_bool(z3.And(p <= z3.Length(s), z3.PrefixOf(lit, tail)))
+                    res = z3.And(p <= z3.Length(s), z3.PrefixOf(lit, tail))
+                    sl = z3.simplify(lit)
+                    if z3.is_string_value(sl) and len(sl.as_string()) <= 12 and not st.spec:
+                        # character-level consequences of a literal prefix (valid by the semantics of strings)
+                        txt = sl.as_string()
+                        facts = [z3.SubString(s, p + k, 1) == z3.StringVal(ch) for k, ch in enumerate(txt)]
+                        facts.append(p + len(txt) <= z3.Length(s))
+                        st.pc.append(z3.Implies(res, z3.And(facts)))
+                        for k in range(len(txt) + 1):
+                            st.reg(p + k)
+                    return mk_bool(res)
                 return mk_bool(z3.PrefixOf(lit, s))
             if name == "find":
                 sub = sval(args[0].v)
@@ -367,6 +397,8 @@ class FuncVerifier(Verifier):
         v = State.__new__(State)
         v.events = st.events
         v.loads = st.loads
+        v.calllog = st.calllog
+        v.callbase = st.callbase
         v.locals = locals_
         v.heap = st.heap
         v.pc = st.pc
@@ -383,9 +415,12 @@ class FuncVerifier(Verifier):
     def snapshot(self, st: State, locals_: Dict[str, SV]) -> State:
         v = self.spec_view(st, dict(locals_), None)
         v.heap = st.heap.copy()
+        v.calllog = list(st.calllog)
+        v.callbase = dict(st.callbase)
         return v
 
     def call_named(self, st, qual: str, args, kwargs, node) -> SV:
+        qual = self.con.use.get(qual, qual)
         con = CONTRACTS.get(qual)
         if con is None:
             raise EngineError(f"call to {qual} which has no contract (line {getattr(node, 'lineno', '?')})")
@@ -437,6 +472,29 @@ class FuncVerifier(Verifier):
             for k, ety in enumerate(con.returns[1]):
                 items.append(self.assume_type(st, fresh("res", Val), ety))
             res = mk_tuple(items)
+        if qual.startswith("cb.") or con.props.count("logged"):
+            st.calllog.append((qual, [bound[p] for p in con.params]))
+        if con.calls is not None:
+            for (cb, argexprs) in con.calls:
+                cv = self.spec_view(pre, dict(bound), None)
+                cv.pc, cv.schemas, cv.idx, cv.ctx = st.pc, st.schemas, st.idx, st.ctx
+                st.calllog.append((cb, [self.ev(ast.parse(e, mode="eval").body, cv) for e in argexprs]))
+        elif not qual.startswith("cb."):
+            # the callee may call back any number of times: its ensures relate the new counts to the old ones
+            for nm in [k for k, c in CONTRACTS.items() if k.startswith("cb.") or "logged" in c.props]:
+                if nm == qual:
+                    continue
+                n0 = len([c for c in st.calllog if c[0] == nm])
+                cur = (st.callbase[nm] + n0) if nm in st.callbase else z3.IntVal(n0)
+                c2 = fresh("ncalls", I)
+                st.pc.append(c2 >= cur)
+                st.callbase[nm] = c2
+            keep = [c for c in st.calllog if c[0] == qual]
+            base_q = st.callbase.get(qual)
+            st.calllog[:] = []
+            if keep:
+                # own log entries of a logged callee stay countable
+                st.callbase[qual] = (base_q + len(keep)) if base_q is not None else z3.IntVal(len(keep))
         post_locals = dict(bound, result=res)
         pv = self.spec_view(st, post_locals, pre)
         for clause in con.ensures:
@@ -645,6 +703,16 @@ class FuncVerifier(Verifier):
             a = ival(self.ev(node.args[1], st).v)
             b = ival(self.ev(node.args[2], st).v)
             return mk_str(z3.SubString(s, a, b - a))
+        if name == "ncalls":
+            nm = node.args[0].value
+            n = len([c for c in st.calllog if c[0] == nm])
+            return mk_int(st.callbase[nm] + n) if nm in st.callbase else mk_int(n)
+        if name == "callarg":
+            nm, i, j = node.args[0].value, node.args[1].value, node.args[2].value
+            cs = [c for c in st.calllog if c[0] == nm]
+            if i >= len(cs):
+                return mk_none()
+            return cs[i][1][j]
         if name == "same":
             a, b = self.ev(node.args[0], st), self.ev(node.args[1], st)
             return mk_bool(self.to_val(st, a) == self.to_val(st, b))
